@@ -159,7 +159,8 @@ Definition e_c15_sex (v : val) : val :=
 (* the hypotheses of C15_sex_bounded_noise / C15_sex_centred_noise as tests, on one sample with its true sex:
    [eps; a; female; hap; build; gstat table; bins] ->
    [every bin within eps; the three centres within eps; contract at chrX; contract at chrY; route at chrX (1 = both
-    statistics); route at chrY; is_xy|None; centre of the autosomes; centre of chrX; centre of chrY|None] *)
+    statistics); route at chrY; centre of the autosomes; centre of chrX; centre of chrY|None]
+   (the decision itself is the one c15_sex returns for the same input) *)
 Definition e_c15_noise_check (v : val) : val :=
   match v with
   | VL [ep; lv; fm; hp; bd; gs; bs] =>
@@ -167,11 +168,11 @@ Definition e_c15_noise_check (v : val) : val :=
       | Some eps, Some a, Some female, Some hap, Some (Some build), Some g, Some t =>
           let gstat := gstat_of g in
           let chry := filter (chr_y_filter t build) t in
+          let crx := sex_contract_route_x gstat hap build t in
+          let cry := sex_contract_route_y gstat build t in
           VL [VB (Spec.Center.bounded_noise_b eps a female hap build t);
               VB (Spec.Center.centred_noise_b (sex_centre t) eps a female hap build t);
-              VB (sex_contract_x_b gstat hap build t); VB (sex_contract_y_b gstat build t);
-              VZ (sex_route_x gstat hap build t); VZ (sex_route_y gstat build t);
-              vOptB (sex_decision gstat hap build t);
+              VB (fst crx); VB (fst cry); VZ (snd crx); VZ (snd cry);
               vQ (sex_centre t (autosomes t build)); vQ (sex_centre t (filter (chr_x_filter t build) t));
               match chry with [] => VNone | _ => vQ (sex_centre t chry) end]
       | Some _, Some _, Some _, Some _, Some None, Some _, Some _ => VErr "Assertion"
